@@ -625,7 +625,9 @@ func roundTrip(c *Case) (string, string) {
 	return "", ""
 }
 
-var metaKeys = []string{"env", "build.id", "owner", "io.example/key", "ключ", "k with space", "x", " build id ", "x ", " x", "\towner", " "}
+var metaKeys = []string{"env", "build.id", "owner", "io.example/key", "ключ", "k with space", "x", " build id ", "x ", " x", "\towner", " ",
+	// keys that merely contain, or nearly are, the reserved prefix: legal user metadata
+	"com.example.mirror-of.io.cncf.notary.x509chain", "xio.cncf.notary.verified", "io.cncf.notar", "IO.CNCF.NOTARY.x", "io.cncf"}
 var metaVals = []string{"prod", "", "42", "a=b,c", "значение", strings.Repeat("v", 300), "{\"json\":true}", "line\nbreak"}
 
 func drawCase(rt *rapid.T) *Case {
